@@ -173,14 +173,14 @@ def run(c):
     # exhaustive re-execution DFS over all scheduler choices for small populations
     for n0 in ([0, 1, 2, 3, 4, 5] if c.thorough else [0, 1, 3]):
         cases.append(dict(n0=n0, exec="default", threads=threads_of(["r1", "r2"], ["k1"]), explore="dfs",
-                          max=60000 if c.thorough else 6000, origin="dfs"))
+                          max=20000 if c.thorough else 6000, origin="dfs"))
     cases.append(dict(n0=1, exec="default", threads=threads_of(["r1"], ["k1", "k2"], {"k2": "failure"}) +
-                      [dict(name="o1", kind="obs")], explore="dfs", max=60000 if c.thorough else 6000, origin="dfs"))
+                      [dict(name="o1", kind="obs")], explore="dfs", max=20000 if c.thorough else 6000, origin="dfs"))
     if c.thorough:
         cases.append(dict(n0=3, exec="default", threads=threads_of(["r1", "r2", "r3"], ["k1"]), explore="dfs",
-                          max=150000, origin="dfs"))
+                          max=40000, origin="dfs"))
         cases.append(dict(n0=2, exec="default", threads=threads_of(["r1", "r2"], ["k1"]), explore="dfs",
-                          tasksfree=True, max=60000, origin="dfs tasks free"))
+                          tasksfree=True, max=20000, origin="dfs tasks free"))
     # seeded random schedules over large populations, all registration methods, all executors
     vias = ["complete", "success", "failure", "foreach"]
     for i in range(60 if c.thorough else 16):
